@@ -24,7 +24,8 @@ def shapes(quick):
     out = []
     for s in starts:
         for n in lens:
-            out.append([(s, n)])
+            if s + n <= (1 << 32):            # an image cannot extend beyond the 32-bit address space
+                out.append([(s, n)])
     pl = [1, 17, 256] if not quick else [1, 17]
     ps = starts if not quick else starts[::2]
     for (a, b) in itertools.combinations(sorted(set(ps)), 2):
@@ -187,7 +188,8 @@ def work(job):
             if typ == "srec" and entry is not None:
                 if info.get("entry") is None or info["entry"] not in (labels["seg%d" % entry], labels["seg%d" % entry] * c["bpa"]):
                     viol.append(("srec-entry", "termination record carries %s, entry point is 0x%x" % (info.get("entry"), labels["seg%d" % entry])))
-        if readback and typ in ("hex", "srec", "elf", "wdc", "uf2") and not err and not any(k.endswith("-image") for k, _ in viol):
+        if readback and typ in ("hex", "srec", "elf", "wdc", "uf2") and not err and not any(k.endswith("-image") for k, _ in viol) \
+                and max(want) < 0xffffff00:
             got, e2 = util_image(cpu, "img." + typ, r.file, want)
             if e2:
                 viol.append(("%s-readback" % typ, e2))
